@@ -49,6 +49,19 @@ def has_generic(t, depth=0):
     return False
 
 
+def may_run_drop_code(t, depth=0):
+    """Dropping a value of this type may run caller-supplied code: like has_generic, but a GenericArray's drop glue is that of its elements only
+    (the length parameter contributes none), so `GenericArray<MaybeUninit<T>, N>` is glue-free for every T and N."""
+    if t is not None and t.get("k") == "adt" and t["def"].split("::")[-1] == "GenericArray":
+        a = [x for x in t["args"] if x.get("k") != "region"]
+        return may_run_drop_code(a[0], depth + 1) if a else True
+    if t is not None and t.get("k") in ("slice", "array"):
+        return may_run_drop_code(t["t"], depth + 1)
+    if t is not None and t.get("k") == "tuple":
+        return any(may_run_drop_code(x, depth + 1) for x in t["ts"])
+    return has_generic(t, depth)
+
+
 def code_free_iter(t, depth=0):
     """Iterator type whose `next` runs only std code: slice iterators and std adaptors over them."""
     if t is None or depth > 8:
@@ -125,6 +138,8 @@ class Classifier:
             return "pure"
         if fn.startswith("core::iter::Iterator::") and fn.split("::")[-1] in LAZY_ITER:
             return "pure"
+        if fn == "core::iter::zip":
+            return "pure"  # `a.into_iter().zip(b)`: an adaptor constructor like Iterator::zip
         if res in PURE_RESOLVED:
             return "pure"
         if fn in ("core::ops::Deref::deref", "core::ops::DerefMut::deref_mut") and res != fn:
